@@ -316,6 +316,25 @@ def _vcount_total(self, mechanism):
 Ctx.vcount_total = _vcount_total
 
 
+INTERNAL_ERRORS = (IndexError, KeyError, NameError, AttributeError)
+
+
+def _raised_inside_library(exc) -> bool:
+    """True when the innermost frame that belongs to either the harness or the hiten package is a hiten frame, i.e. the error
+    surfaced while library code was running (possibly inside a dependency it called), not in harness code."""
+    tb = exc.__traceback__
+    owner = None
+    while tb is not None:
+        fn = tb.tb_frame.f_code.co_filename.replace("\\", "/")
+        if "site-packages" not in fn and "/lib/python" not in fn:
+            if "/hmon/" in fn:
+                owner = "harness"
+            elif "/hiten/" in fn:
+                owner = "library"
+        tb = tb.tb_next
+    return owner == "library"
+
+
 def guarded(ctx: Ctx, label: str, fn, *a, **k):
     """Run a sub-monitor; an unexpected harness exception is *inconclusive*, never a pass."""
     try:
@@ -329,6 +348,11 @@ def guarded(ctx: Ctx, label: str, fn, *a, **k):
             # numba bounds checking turned a silent out-of-range access into an exception
             ctx.violation("SAN:no out-of-bounds array access in compiled kernels (NUMBA_BOUNDSCHECK=1)",
                           {"where": label, "error": str(e)[:300], "traceback": tb[-1500:]}, None)
+        elif isinstance(e, INTERNAL_ERRORS) and _raised_inside_library(e):
+            # the monitors only feed legitimate inputs; an internal error (index/key/name/attribute) raised from library code on
+            # such an input means the operation the property speaks about did not deliver its value at all
+            ctx.violation("X:library operation completes on a legitimate input (no internal IndexError/KeyError/NameError/AttributeError)",
+                          {"where": label, "error": f"{type(e).__name__}: {e}"[:300], "traceback": tb[-1500:]}, None)
         else:
             ctx.mark_inconclusive(f"{label}: harness exception {type(e).__name__}: {e}")
     return None
